@@ -198,6 +198,8 @@ def run_ch_job(job):
                 except Exception as e:  # pragma: no cover
                     res["cex_bind_error"] = repr(e)
             res["cex_state"] = st
+            res["cex_reasons_seen"] = core.FAIL_LOG[-3:]
+            res["cex_ctx"] = core.LAST.get("ctx")
             res["cex_traceback"] = (m.traceback or "")[-3000:]
             break
         else:
@@ -286,7 +288,7 @@ def run_replay(rp):
             sys.settrace(tracer)
         try:
             if rp.get("direct"):
-                r = fn(core.PARAMS, args)
+                r = getattr(mod, rp["fn"] + "_replay")(core.PARAMS, args)
                 out.update(r)
                 return out
             ok = fn(**args)
